@@ -218,3 +218,15 @@ Section EnumBody.
     eexists _, nss. split; [reflexivity|]. cbn. repeat split; auto.
   Qed.
 End EnumBody.
+
+(* distinct member names give distinct instance ids (and the names are kept as they are) *)
+Lemma inst_pairs_names e ns : map snd (inst_pairs e ns) = ns.
+Proof. unfold inst_pairs. rewrite map_map. cbn. apply map_id. Qed.
+
+Lemma inst_pairs_ids_nodup e ns : NoDup ns -> NoDup (map fst (inst_pairs e ns)).
+Proof.
+  unfold inst_pairs. rewrite map_map. cbn [fst]. induction ns as [|n ns IH]; intro H; [constructor|].
+  inversion H as [|? ? Hn Hr]; subst. cbn [map]. constructor; [|now apply IH].
+  intro Hin. apply in_map_iff in Hin. destruct Hin as [m [E Hm]].
+  apply app_inv_head in E. apply app_inv_head in E. subst m. contradiction.
+Qed.
